@@ -399,7 +399,7 @@ func poisonBufferWriterPool() {
 // by both readers; each must come back exactly. (A lossy cache keyed on a digest of the name shows up as a
 // wrong name once two of them collide.)
 func TestC12_ManyNames(t *testing.T) {
-	rec := evid.New("C12", "c12_many_names", "stream of distinct 14- and 9-byte method names (counter-valued) decoded one after the other by Binary.ReadMessageBegin (all) and BufferReader.ReadMessageBegin over a bytes reader (every 8th); every name, type and sequence id compared; distinct by construction; non-trivial = all")
+	rec := evid.New("C12", "c12_many_names", "stream of distinct 14- and 9-byte method names (counter-valued) decoded one after the other by Binary.ReadMessageBegin (all) and BufferReader.ReadMessageBegin over a bytes reader (every 8th); every name, type and sequence id compared, and every name compared once more after its header buffer has been rewritten for the next message; distinct by construction; non-trivial = all")
 	defer rec.Flush()
 	n := evid.Pick(50_000_000, 150_000_000)
 	shard, _ := evid.Shard()
@@ -413,6 +413,9 @@ func TestC12_ManyNames(t *testing.T) {
 	}
 	x := thrift.Binary
 	b := evid.NewBatch()
+	var prevName, prevStream string
+	var prevWant [16]byte
+	prevLen := 0
 	for i := 0; i < n; i++ {
 		h := hdr
 		nameLen := 14
@@ -432,7 +435,14 @@ func TestC12_ManyNames(t *testing.T) {
 			digits(name[1:], i%100_000_000)
 			name[0] = byte('a' + shard%26)
 		}
+		// the names decoded in the previous round came out of these same (now rewritten) header buffers:
+		// they must still read as they did
+		if i > 0 && (prevName != string(prevWant[:prevLen]) || (prevStream != "" && prevStream != string(prevWant[:prevLen]))) {
+			failEnum(t, rec, "c12_name_sequence", NameSeqCase{Names: []evid.Hex{[]byte(prevName), append([]byte(nil), prevWant[:prevLen]...)}}, evid.Failf("name #%d was decoded as %q; after its header buffer was reused for the next message the retained name reads %q (Binary) / %q (BufferReader)", i-1, prevWant[:prevLen], prevName, prevStream))
+			break
+		}
 		gn, _, _, l, err := x.ReadMessageBegin(h)
+		prevName, prevStream, prevLen = gn, "", copy(prevWant[:], name)
 		if err != nil || l != len(h) || gn != string(name) {
 			failEnum(t, rec, "c12_name_sequence", NameSeqCase{Names: []evid.Hex{[]byte(gn), append([]byte(nil), name...)}}, evid.Failf("Binary.ReadMessageBegin: name #%d decoded as %q, the header carries %q (err %v)", i, gn, name, err))
 			break
@@ -441,6 +451,7 @@ func TestC12_ManyNames(t *testing.T) {
 			r := thrift.NewBufferReader(bufiox.NewBytesReader(h))
 			sn, _, _, err := r.ReadMessageBegin()
 			r.Recycle()
+			prevStream = sn
 			if err != nil || sn != string(name) {
 				failEnum(t, rec, "c12_name_sequence", NameSeqCase{Names: []evid.Hex{[]byte(sn), append([]byte(nil), name...)}}, evid.Failf("BufferReader.ReadMessageBegin: name #%d decoded as %q, the header carries %q (err %v)", i, sn, name, err))
 				break
